@@ -5,6 +5,7 @@
 package c14
 
 import (
+	"math"
 	"fmt"
 	"reflect"
 	"sort"
@@ -417,6 +418,85 @@ func run(w *core.Worker, c Case) {
 					fail("result", "SliceToMap(%v,%v)=%v want %v", c.S1, c.S2, got, want)
 					bad = true
 				}
+			case "FloatKeys":
+				// maps keyed by float64 incl. NaN keys (every NaN key is its own entry and cannot be
+				// looked up again): entries are compared as multisets of (is-NaN-key, key, value)
+				fm := map[float64]int{}
+				nNaN := c.V % 4
+				for i := 0; i < nNaN; i++ {
+					fm[math.NaN()] = 10 + i%2 // values may repeat
+				}
+				for k, v := range c.M {
+					fm[float64(len(k))+float64(v)/4] = v
+				}
+				type ent struct {
+					nan bool
+					k   float64
+					v   int
+				}
+				ents := func(m map[float64]int) []ent {
+					var o []ent
+					for k, v := range m {
+						if k != k {
+							o = append(o, ent{true, 0, v})
+						} else {
+							o = append(o, ent{false, k, v})
+						}
+					}
+					sort.Slice(o, func(i, j int) bool {
+						if o[i].nan != o[j].nan {
+							return o[i].nan
+						}
+						if o[i].k != o[j].k {
+							return o[i].k < o[j].k
+						}
+						return o[i].v < o[j].v
+					})
+					return o
+				}
+				all := ents(fm)
+				var yes, no []ent
+				for _, e := range all {
+					if pr(e.v) {
+						yes = append(yes, e)
+					} else {
+						no = append(no, e)
+					}
+				}
+				same := func(a, b []ent) bool { return len(a) == len(b) && (len(a) == 0 || reflect.DeepEqual(a, b)) }
+				if got := ents(gogu.FilterMap(fm, pr)); !same(got, yes) {
+					fail("FilterMap", "FilterMap(%v, %s) has entries %v want %v", fm, c.Pred, got, yes)
+					bad = true
+				}
+				if got := ents(gogu.PickBy(fm, func(k float64, v int) bool { return pr(v) })); !same(got, yes) {
+					fail("PickBy", "PickBy(%v, %s) has entries %v want %v", fm, c.Pred, got, yes)
+					bad = true
+				}
+				if got := ents(gogu.MapValues(fm, func(v int) int { return v })); !same(got, all) {
+					fail("MapValues", "MapValues(%v, id) has entries %v want %v", fm, got, all)
+					bad = true
+				}
+				if ks, vs := gogu.Keys(fm), gogu.Values(fm); len(ks) != len(all) || len(vs) != len(all) {
+					fail("KeysValues", "Keys/Values(%v) have %d/%d elements want %d", fm, len(ks), len(vs), len(all))
+					bad = true
+				}
+				if got := gogu.MapSome(fm, pr); got != (len(yes) > 0) {
+					fail("MapSome", "MapSome(%v, %s)=%v", fm, c.Pred, got)
+					bad = true
+				}
+				if got := gogu.MapEvery(fm, pr); got != (len(no) == 0) {
+					fail("MapEvery", "MapEvery(%v, %s)=%v", fm, c.Pred, got)
+					bad = true
+				}
+				// OmitBy works in place: run it last, on the map itself. Not with NaN keys: Go's delete
+				// cannot remove a NaN-keyed entry, so no in-place implementation could comply.
+				if nNaN > 0 {
+					return
+				}
+				if got := ents(gogu.OmitBy(fm, func(k float64, v int) bool { return pr(v) })); !same(got, no) {
+					fail("OmitBy", "OmitBy(..., %s) left entries %v want %v", c.Pred, got, no)
+					bad = true
+				}
 			default:
 				panic("unknown fn " + c.Fn)
 			}
@@ -499,7 +579,7 @@ func allMaps(keys []string, vals []int, maxEntries int) []map[string]int {
 func TestProp(t *testing.T) {
 	r := core.Start(t, "C14")
 	defer r.Finish()
-	r.Rule("cases = one call group of the map helpers, each executed 4 times on freshly built maps (iteration orders sampled): Keys/Values/MapCollection as multisets, MapValues, MapKeys (injective and colliding), MapEvery/MapSome/MapContains, MapUnique, Find (smallest qualifying key)/FindKey/FindByKey (some qualifying entry), Invert, Pick+Omit and PickBy+OmitBy as a partition of the original, FilterMap, Pluck, FilterMapCollection/Filter2DMapCollection (each qualifying map once, in order), PartitionMap, SliceToMap; non-trivial = a map with >= 2 entries resp. a collection with >= 2 maps; distinct by hash of the case")
+	r.Rule("cases = one call group of the map helpers, each executed 4 times on freshly built maps (iteration orders sampled): Keys/Values/MapCollection as multisets, MapValues, MapKeys (injective and colliding), MapEvery/MapSome/MapContains, MapUnique, Find (smallest qualifying key)/FindKey/FindByKey (some qualifying entry), Invert, Pick+Omit and PickBy+OmitBy as a partition of the original, FilterMap, Pluck, FilterMapCollection/Filter2DMapCollection (each qualifying map once, in order), PartitionMap, SliceToMap; FilterMap/PickBy/OmitBy/MapValues/Keys/Values/MapSome/MapEvery also on float64-keyed maps holding 0-3 NaN keys (entries compared as multisets); non-trivial = a map with >= 2 entries resp. a collection with >= 2 maps; distinct by hash of the case")
 
 	keys := []string{"", "a", "b", "c"} // incl. the zero key
 	core.Monitor(r, "map-sweep", 0, func(emit func(Case)) {
@@ -509,6 +589,11 @@ func TestProp(t *testing.T) {
 		seq.Enum([]string{"", "a", "b", "z"}, 3, func(k []string) { keyLists = append(keyLists, k) })
 		for _, m := range ms {
 			emit(Case{Fn: "KeysValues", M: m})
+			for v := 0; v < 4; v++ {
+				for _, pn := range []string{"true", "false", "eq1", "ge1"} {
+					emit(Case{Fn: "FloatKeys", M: m, Pred: pn, V: v})
+				}
+			}
 			emit(Case{Fn: "MapKeys", M: m})
 			emit(Case{Fn: "MapUnique", M: m})
 			emit(Case{Fn: "Invert", M: m})
